@@ -71,7 +71,7 @@ func runC12(w *mon.W) {
 		alpha string
 		maxN  int
 	}
-	spaces := []space{{"AB", w.Pick(14, 20)}, {"ACG", w.Pick(9, 13)}, {"ACGT", w.Pick(7, 11)}}
+	spaces := []space{{"aB", w.Pick(14, 20)}, {"ACG", w.Pick(9, 13)}, {"ACGT", w.Pick(7, 11)}}
 	const blk = 8192
 	idx := 0
 	var parts []string
@@ -111,7 +111,7 @@ func runC12(w *mon.W) {
 			continue
 		}
 		r := w.Rand(id)
-		alpha := []string{"AB", "ACGT", "ACGTRYSWKMBDHVN", "ab\x00\xff"}[r.Intn(4)]
+		alpha := []string{"AB", "ACGT", "ACGTRYSWKMBDHVN", "ab\x00\xff", "ACGTacgt"}[r.Intn(5)]
 		var n int
 		switch r.Intn(4) {
 		case 0:
